@@ -93,6 +93,16 @@ class SysStatio(PDEStatio):
         return u_dict["u"](x, params_dict.extract_params("u")) - params_dict.eq_params["c"]
 
 
+class SysSinODE(ODE):
+    def equation(self, t, u_dict, params_dict):
+        return 1.5 * jnp.sin(3.0 * jnp.reshape(t, (1,)))
+
+
+class SysSinStatio(PDEStatio):
+    def equation(self, x, u_dict, params_dict):
+        return 1.5 * jnp.sin(3.0 * x[:1])
+
+
 class SysNonStatio(PDENonStatio):
     def equation(self, t, x, u_dict, params_dict):
         return u_dict["u"](t, x, params_dict.extract_params("u")) - params_dict.eq_params["c"]
@@ -136,11 +146,13 @@ def build(cfg, record=True):
         if cfg.get("system"):
             # one-unknown, one-equation system loss (the schedule must not depend on the kind of loss)
             params = jinns.parameters.ParamsDict(nn_params={"u": u.init_params()}, eq_params={"c": jnp.asarray(cfg["c"])})
+            two = cfg.get("system") == 2 and kind != "nonstatio"
             if kind == "ode":
-                loss = jinns.loss.SystemLossODE(u_dict={"u": u}, dynamic_loss_dict={"e": SysODE()}, loss_weights=jinns.loss.LossWeightsODEDict(dyn_loss=1.0), params_dict=params)
+                eqs = {"zz": SysODE(), "aa": SysSinODE()} if two else {"e": SysODE()}
+                loss = jinns.loss.SystemLossODE(u_dict={"u": u}, dynamic_loss_dict=eqs, loss_weights=jinns.loss.LossWeightsODEDict(dyn_loss=1.0), params_dict=params)
             else:
-                loss = jinns.loss.SystemLossPDE(u_dict={"u": u}, dynamic_loss_dict={"e": SysStatio() if kind == "statio" else SysNonStatio()},
-                                                loss_weights=jinns.loss.LossWeightsPDEDict(), params_dict=params)
+                eqs = {"zz": SysStatio(), "aa": SysSinStatio()} if two else {"e": SysStatio() if kind == "statio" else SysNonStatio()}
+                loss = jinns.loss.SystemLossPDE(u_dict={"u": u}, dynamic_loss_dict=eqs, loss_weights=jinns.loss.LossWeightsPDEDict(), params_dict=params)
         elif kind == "ode":
             loss = jinns.loss.LossODE(u=u, dynamic_loss=dyn, initial_condition=None, params=params)
         elif kind == "statio":
@@ -159,7 +171,7 @@ def residual_sq(cfg, t=None, x=None):
     if x is not None:
         x = np.asarray(x, dtype=np.float64)
         r = r + x @ np.asarray(cfg["wx"][: x.shape[-1]], dtype=np.float64)
-    if cfg.get("ncomp", 1) == 2:
+    if cfg.get("ncomp", 1) == 2 or cfg.get("system") == 2:
         first = np.asarray(t, dtype=np.float64) if t is not None and x is None else x[..., 0]
         return r**2 + (1.5 * np.sin(3.0 * first)) ** 2
     return r**2
